@@ -30,7 +30,7 @@ props.prop(
     assumptions=['a saver that raises is a loud failure and satisfies the property',
                  'context.id/context.do/context.object preserve object identity (C02.f checks the cycle breaking)'])
 props.also('C02',
-           'that record upgrades write a default only under an absence test of the key; that flatten / reshape pairs and views of categorical arrays in the array helpers keep C order and categories; that the type tag of every record is computed by the one helper')
+           'that record upgrades write a default only under an absence test of the key; that flatten / reshape pairs and views of categorical arrays in the array helpers keep C order and categories; that the type tag of every record is computed by the one helper; that a saved value is never replaced by a default through `saved or default` inside a loader; that restored coordinate components are sorted by (world, axis) before they become the positional identifier lists')
 
 FAMILIES = [
     # (root class, behaviour methods, label)
